@@ -72,6 +72,8 @@ class FnSpec:
     src: str = ""
     used: bool = False
     opens_invariants: str = ""
+    stmts: str = ""     # expected top-level statement counts, e.g. "6" or "6 4/1:3"
+    closures: dict = field(default_factory=dict)   # ordinal -> FnSpec-like (ret type, requires, ensures)
 
 
 @dataclass
@@ -84,7 +86,7 @@ class ItemSpec:
 
 
 CLAUSE_RE = re.compile(r"^([A-Za-z][A-Za-z0-9_]*)\s*(\[[A-Za-z0-9_, ]*\])?:(?:\s+(.*))?$")
-HINT_RE = re.compile(r"^hint(?:\s+([A-Za-z][A-Za-z0-9_]*))?\s*(\[[A-Za-z0-9_, ]*\])?\s+(start|end|before|after)\b\s*(.*?):\s*(.*)$")
+HINT_RE = re.compile(r"^hint(?:\s+([A-Z][A-Za-z0-9_]*))?\s*(\[[A-Za-z0-9_, ]*\])?\s+(start|end|before|after)\b\s*((?:stmt\s+[0-9/]+)|(?:\"[^\"]*\"(?:\s*#\d+)?)|)\s*:\s*(.*)$")
 
 
 def _parse_tags(s):
@@ -157,8 +159,12 @@ def parse_contract_file(path):
                 cur.ret = line[4:].strip()
             elif line.startswith("attr:"):
                 cur.attrs.append(line[5:].strip())
+            elif line.startswith("stmts:"):
+                cur.stmts = line[6:].strip()
             elif line.startswith("opens_invariants:"):
                 cur.opens_invariants = line.split(":", 1)[1].strip()
+            elif line == "requires" and indent == 4 and loop is not None:
+                section = ("list", loop.invariants, "requires", indent + 2)
             elif line == "requires":
                 section = ("list", cur.requires, "requires", indent + 2)
             elif line == "ensures":
@@ -186,6 +192,14 @@ def parse_contract_file(path):
                 n = int(line.split()[1])
                 loop = LoopSpec(ordinal=n)
                 cur.loops[n] = loop
+                section = None
+            elif line.startswith("closure "):
+                parts = line.split(None, 2)
+                n = int(parts[1])
+                loop = LoopSpec(ordinal=n)
+                loop.iter_name = parts[2].strip()    # return type text, e.g. "(r: ScrollbackLimit)"
+                loop.is_closure = True
+                cur.closures[n] = loop
                 section = None
             elif line.startswith("hint"):
                 m = HINT_RE.match(line)
@@ -662,6 +676,7 @@ class FileWeaver:
     def body(self, it, spec, key):
         toks = self.toks
         lo, hi = it.open, it.close
+        self.check_stmt_counts(it, spec, key)
         # loops by ordinal
         loops = []
         i = lo + 1
@@ -716,6 +731,55 @@ class FileWeaver:
                     self.place_hint(anchor, c, opn, cls, key)
             for (anchor, c) in spec.hints:
                 self.place_hint(anchor, c, lo, hi, key)
+        # N4: closure contracts  |args| EXPR  ->  |args| -> (r: T) requires .. ensures .. { EXPR }
+        if spec and spec.closures:
+            cl = []
+            i = lo + 1
+            while i < hi:
+                t = toks[i]
+                if t.kind == PUNCT and t.text == "|":
+                    p = prev_sig(toks, i - 1)
+                    if toks[p].text in ("(", ",", "=", "{", ";") or (toks[p].kind == IDENT and toks[p].text in ("move", "return")):
+                        # parameter list ends at the next '|'
+                        q = i + 1
+                        if toks[next_sig(toks, q)].text == "|":
+                            q = next_sig(toks, q)
+                        else:
+                            while not (toks[q].kind == PUNCT and toks[q].text == "|"):
+                                if toks[q].kind == PUNCT and toks[q].text in "([":
+                                    q = match_close(toks, q)
+                                q += 1
+                        # body: until unmatched ')' or ',' / ';' at depth 0
+                        b0 = next_sig(toks, q + 1)
+                        e = b0
+                        while e < hi:
+                            te = toks[e]
+                            if te.kind == PUNCT and te.text in "([{":
+                                e = match_close(toks, e)
+                            elif te.kind == PUNCT and te.text in (")", ",", ";", "]", "}"):
+                                break
+                            e += 1
+                        cl.append((q, b0, prev_sig(toks, e - 1)))
+                        i = q
+                i += 1
+            for n, cs in spec.closures.items():
+                if n < 1 or n > len(cl):
+                    raise WeaveError("lost anchor: %s closure %d (function has %d closures)" % (key, n, len(cl)))
+                q, b0, b1 = cl[n - 1]
+                out = [" -> %s\n" % cs.iter_name]
+                marks = []
+                for header, clauses in (("requires", cs.invariants), ("ensures", cs.ensures)):
+                    if clauses:
+                        out.append("    %s\n" % header)
+                        for c in clauses:
+                            l0 = sum(x.count("\n") for x in out)
+                            out.append("        /*%s*/ (%s),\n" % (c.cid, c.text))
+                            l1 = sum(x.count("\n") for x in out) - 1
+                            marks.append((l0, l1, c))
+                out.append("{ ")
+                self.add(toks[q].end, 0, "".join(out), "ghost", marks)
+                self.add(toks[b1].end, 0, " }", "ghost")
+                self.report.setdefault("N4", []).append(key)
         # N2: destructuring assignment statements
         i = lo + 1
         while i < hi:
@@ -758,22 +822,35 @@ class FileWeaver:
         """lo/hi: token indices of the enclosing '{' and '}'"""
         toks = self.toks
         where, arg = anchor
-        text = "\n" + c.text + "\n"
-        nl = text.count("\n")
-        marks = [(1, max(1, nl - 1), c)]
+        ghost_lets, rest = [], []
+        for ln in c.text.split("\n"):
+            (ghost_lets if ln.strip().startswith("let ghost ") else rest).append(ln)
+        text = "\n" + "".join(g.strip() + "\n" for g in ghost_lets)
+        pre = text.count("\n")
+        if any(r.strip() for r in rest):
+            text += "proof {\n" + "\n".join(rest) + "\n}\n"
+            nl = text.count("\n")
+            marks = [(pre + 1, max(pre + 1, nl - 2), c)]
+        else:
+            marks = []
         if where == "start":
             self.add(toks[lo].end, 0, text, "ghost", marks)
             return
         if where == "end":
-            # before a trailing expression we cannot insert statements; insert before '}' only
-            # if the last significant token is ';' or '}' (statement end); else before the
-            # start of the trailing expression statement.
             p = prev_sig(toks, hi - 1)
             if toks[p].text in (";", "}") or p == lo:
                 self.add(toks[hi].pos, 0, text, "ghost", marks)
             else:
                 s = self.stmt_start(p, lo)
                 self.add(toks[s].pos, 0, text, "ghost", marks)
+            return
+        if arg.startswith("stmt"):
+            path = [int(x) for x in arg.split()[1].split("/")]
+            a, b = self.resolve_stmt(lo, hi, path, key, c)
+            if where == "before":
+                self.add(toks[a].pos, 0, text, "ghost", marks)
+            else:
+                self.add(toks[b].end, 0, text, "ghost", marks)
             return
         m = re.match(r'^"(.*)"\s*(?:#(\d+))?$', arg)
         if not m:
@@ -793,17 +870,14 @@ class FileWeaver:
             s = self.stmt_start(s, lo)
             self.add(toks[s].pos, 0, text, "ghost", marks)
         else:
-            # after: the ';' that ends the statement containing the snippet, or the
-            # closing brace of a block statement
             q = e
-            depth = 0
             while q < hi:
                 t = toks[q]
                 if t.kind == PUNCT and t.text in "([{":
                     q2 = match_close(toks, q)
                     if t.text == "{":
                         nx = next_sig(toks, q2 + 1)
-                        if toks[nx].text not in (";", ".", "else", ")", ",") and not (toks[nx].kind == IDENT and toks[nx].text == "else"):
+                        if toks[nx].text not in (";", ".", ")", ",") and not (toks[nx].kind == IDENT and toks[nx].text == "else"):
                             q = q2
                             break
                     q = q2
@@ -811,6 +885,123 @@ class FileWeaver:
                     break
                 q += 1
             self.add(toks[q].end, 0, text, "ghost", marks)
+
+    def split_stmts(self, lo, hi):
+        """statements (or match arms) directly inside the block toks[lo]='{' .. toks[hi]='}':
+        list of (first_tok, last_tok)"""
+        toks = self.toks
+        out = []
+        i = next_sig(toks, lo + 1)
+        while i < hi:
+            start = i
+            q = i
+            while q < hi:
+                t = toks[q]
+                if t.kind == PUNCT and t.text in "([":
+                    q = match_close(toks, q)
+                elif t.kind == PUNCT and t.text == "{":
+                    q = match_close(toks, q)
+                    nx = next_sig(toks, q + 1)
+                    if nx >= hi:
+                        break
+                    tn = toks[nx]
+                    if tn.kind == PUNCT and tn.text == ",":
+                        q = nx
+                        break
+                    if (tn.kind == IDENT and tn.text == "else") or (tn.kind == PUNCT and tn.text in (".", "?", ";", ")", "=")):
+                        q += 1
+                        continue
+                    if tn.kind == PUNCT and tn.text in ("+", "-", "*", "/", "&", "|", "<", ">") :
+                        # `{..} op` : only an expression continuation if the statement started
+                        # with something other than a block keyword
+                        if toks[start].kind == IDENT and toks[start].text in ("if", "match", "for", "while", "loop", "unsafe"):
+                            break
+                        q += 1
+                        continue
+                    break
+                elif t.kind == PUNCT and t.text == ";":
+                    break
+                elif t.kind == PUNCT and t.text == "," :
+                    break
+                q += 1
+            end = min(q, prev_sig(toks, hi - 1))
+            out.append((start, end))
+            i = next_sig(toks, end + 1)
+        return out
+
+    def resolve_stmt(self, lo, hi, path, key, c):
+        toks = self.toks
+        cur_lo, cur_hi = lo, hi
+        a = b = None
+        idx = 0
+        while idx < len(path):
+            stmts = self.split_stmts(cur_lo, cur_hi)
+            n = path[idx]
+            if n < 1 or n > len(stmts):
+                raise WeaveError("lost anchor: hint %s in %s: statement path %s (block has %d statements)" % (
+                    c.cid, key, "/".join(map(str, path)), len(stmts)))
+            a, b = stmts[n - 1]
+            idx += 1
+            if idx < len(path):
+                # descend into k-th brace block of this statement
+                k = path[idx]
+                idx += 1
+                blocks = []
+                q = a
+                while q <= b:
+                    t = toks[q]
+                    if t.kind == PUNCT and t.text in "([":
+                        q = match_close(toks, q)
+                    elif t.kind == PUNCT and t.text == "{":
+                        e = match_close(toks, q)
+                        blocks.append((q, e))
+                        q = e
+                    q += 1
+                if k < 1 or k > len(blocks):
+                    raise WeaveError("lost anchor: hint %s in %s: statement has %d blocks, wanted %d" % (c.cid, key, len(blocks), k))
+                cur_lo, cur_hi = blocks[k - 1]
+                if idx == len(path):
+                    raise WeaveError("hint %s in %s: path must end on a statement number" % (c.cid, key))
+        return a, b
+
+    def check_stmt_counts(self, it, spec, key):
+        """`stmts: 6 4/1:3` = body has 6 statements; first block of statement 4 has 3"""
+        if not spec or not spec.stmts:
+            return
+        toks = self.toks
+        for part in spec.stmts.split():
+            if ":" in part:
+                pth, cnt = part.split(":")
+                path = [int(x) for x in pth.split("/")]
+            else:
+                path, cnt = [], part
+            lo, hi = it.open, it.close
+            idx = 0
+            while idx < len(path):
+                stmts = self.split_stmts(lo, hi)
+                n = path[idx]
+                if n < 1 or n > len(stmts):
+                    raise WeaveError("lost anchor: %s statement layout changed (path %s)" % (key, part))
+                a, b = stmts[n - 1]
+                k = path[idx + 1]
+                blocks = []
+                q = a
+                while q <= b:
+                    t = toks[q]
+                    if t.kind == PUNCT and t.text in "([":
+                        q = match_close(toks, q)
+                    elif t.kind == PUNCT and t.text == "{":
+                        e = match_close(toks, q)
+                        blocks.append((q, e))
+                        q = e
+                    q += 1
+                if k < 1 or k > len(blocks):
+                    raise WeaveError("lost anchor: %s statement layout changed (path %s)" % (key, part))
+                lo, hi = blocks[k - 1]
+                idx += 2
+            got = len(self.split_stmts(lo, hi))
+            if got != int(cnt):
+                raise WeaveError("lost anchor: %s has %d statements at %s, contract expects %s" % (key, got, pth if path else "top level", cnt))
 
     def stmt_start(self, idx, lo):
         """walk back from token idx to the first token of its statement (after ';', '{' or '}'
